@@ -49,6 +49,8 @@ impl<T: RefCnt> HybridProtection<T> {
     fn attempt(node: &LocalNode, storage: &AtomicPtr<T::Base>) -> Option<Self> {
         // Relaxed is good enough here, see the Acquire below
         let ptr = storage.load(Relaxed);
+        #[cfg(arc_swap_verif)]
+        verif_rt::probe(verif_rt::probes::PTR_READ_UNPROTECTED, true);
         // Try to get a debt slot. If not possible, fail.
         let debt = node.new_fast(ptr as usize)?;
 
